@@ -18,7 +18,7 @@ def make_case(rng, tier):
     c["units"][2] = "molecule"                      # the samples are then the engine's own integers
     c["policy"] = "on_iteration"
     c["init"] = "none"
-    c["nsteps"] = rng.randint(3, (60 if kind == "gillespie" else 12) * (4 if big else 1))
+    c["nsteps"] = rng.randint(3, (60 if kind == "gillespie" else 12) * (2 if big else 1))
     c["t_max"] = c["dt"] * 10 ** 6 if kind == "gillespie" else c["dt"] * (c["nsteps"] - 0.5)
     c["t_sample"] = [0.0]
     # reactions of order 0..3 with repeated reactants so that the combinatorial factors matter
@@ -186,7 +186,7 @@ def summarise(run, res):
 def check(run):
     rng = random.Random(run.seed)
     sysgen.POOLS["space"] = ["cm", "mm", "dmm", "cmm", "µm", "nm", "dm"]
-    n = 140 if run.tier == "quick" else 3000
+    n = 140 if run.tier == "quick" else 1200
     cases = [make_case(rng, run.tier) for _ in range(n)]
     items = build_items(cases, run)
     for it in items:
@@ -205,7 +205,7 @@ def check(run):
                 "non-trivial = >= 2 steps")
     # long Gillespie runs at low copy numbers (cells empty and refill: histories matter), screened by the legality oracle;
     # the Coq replay judges a fixed-size prefix above and every run the screen objects to
-    nb = 500 if run.tier == "quick" else 10000
+    nb = 500 if run.tier == "quick" else 6000
     bulk = []
     for _ in range(nb):
         c = make_case(rng, run.tier)
